@@ -410,7 +410,7 @@ def run_config(ctx, rep, cfg):
         if o["rule"] == "C13.R6":
             rep.add("C07.R2", o["construct"], o["status"], o["site"], o["detail"], cfg=cn)
     # R3 on the optimised IR
-    ship = ctx.prog(cfg, "ship")
+    ship = ctx.prog(cfg, "shipinl")
     nvec = 0
     for (st, unit, g, fs) in vtable_instances(prog):
         if fs is None or len(fs) > 3:
